@@ -357,7 +357,7 @@ def random_history(ctx, spec):
     w = World(ctx, rng, names, kind=kind, strict=True, registry=reg)
     menu = dict(build=5, apply=14, apply_quant=2, ite=8, drop=5, gc=3,
                 swap=3 if kind == 'bdd' else 0, sift=1, reorder_to=1,
-                dup=1, **{'not': 2})
+                dup=1, clone=2 if kind == 'bdd' else 0, **{'not': 2})
     for k in range(spec['steps']):
         ok, res = ctx.guard(w.site, w.step, menu, case=dict(
             spec=spec, step=k, tail=w.log[-6:]))
